@@ -12,7 +12,8 @@ import shutil
 import sys
 import tempfile
 from dataclasses import dataclass, field
-from typing import List, Optional
+import re
+from typing import Dict, List, Optional
 
 from jsonargparse import ActionConfigFile, ArgumentParser, Namespace
 from jsonargparse._util import Path, current_path_dir
@@ -42,6 +43,8 @@ def make_parser():
     parser.add_argument("--mid", type=Mid, default=Mid())
     parser.add_argument("--p", type=Optional[Path_fr])
     parser.add_argument("--lst", type=Optional[List[Path_fr]], enable_path=True)
+    parser.add_argument("--dct", type=Optional[Dict[str, Path_fr]], enable_path=True)
+    parser.add_argument("--many", type=Path_fr, nargs="+")
     return parser
 
 
@@ -63,8 +66,14 @@ def render(nodes, base):
             out[n["key"]] = n["value"]
         elif t == "inline":
             out[n["key"]] = render(n["body"], base)
-        elif t == "inlist":
+        elif t in ("inlist", "many"):
             out[n["key"]] = [real(g, base) for g in n["items"]]
+        elif t == "dctinline":
+            out[n["key"]] = {"k%d" % i: real(g, base) for i, g in enumerate(n["items"])}
+        elif t == "dctfile":
+            out[n["key"]] = real(n["given"], base)
+            if n["at"] is not None:
+                write(os.path.join(base, n["at"]), json.dumps({"k%d" % i: real(g, base) for i, g in enumerate(n["items"])}))
         elif t == "load":
             out[n["key"]] = real(n["given"], base)
             if n["at"] is not None:
@@ -114,10 +123,19 @@ def run_case(case, base):
         os.makedirs(os.path.join(base, d), exist_ok=True)
     for f in case["files"]:
         write(os.path.join(base, f), "data\n")
-    top = case["top"]
-    body = render(case["tree"], base)
-    if top["at"] is not None:
-        write(os.path.join(base, top["at"]), json.dumps(body) if top.get("wellformed", True) else "{a: [")
+    tops = case["tops"] if "tops" in case else [dict(case["top"], tree=case["tree"], kind="normal")]
+    for top in tops:
+        body = render(top["tree"], base)
+        if top["at"] is None:
+            continue
+        if top["kind"] == "empty":
+            write(os.path.join(base, top["at"]), "  \n\n")
+        elif top["kind"] == "binary":
+            os.makedirs(os.path.dirname(os.path.join(base, top["at"])), exist_ok=True)
+            with open(os.path.join(base, top["at"]), "wb") as f:
+                f.write(b"\xff\xfe p: 1\n")
+        else:
+            write(os.path.join(base, top["at"]), json.dumps(body) if top.get("wellformed", True) else "{a: [")
     # symbolic links to directories: [link (below the root), target (relative to the link's directory, or /B/...)]
     for link, target in case.get("links", []):
         os.symlink(real(target, base), os.path.join(base, link))
@@ -130,7 +148,8 @@ def run_case(case, base):
                      if not os.path.islink(os.path.join(d, f)))  # the physical regular files
     dirs = sorted("/B" + d[len(base):] for d, _, _ in os.walk(base))  # the physical directories (links are not followed)
     os.chdir(start)
-    given = real(top["given"], base)
+    givens = [real(t["given"], base) for t in tops]
+    given = givens[0]
 
     def canon(s):
         if isinstance(s, str) and s.startswith(base):
@@ -141,14 +160,14 @@ def run_case(case, base):
     entry = case["entry"]
     try:
         if entry == "args":
-            cfg = parser.parse_args(["--cfg", given])
+            cfg = parser.parse_args([a for g in givens for a in ("--cfg", g)])
         elif entry == "path":
             cfg = parser.parse_path(given)
         elif entry == "default":
-            parser.default_config_files = [given]
+            parser.default_config_files = givens
             cfg = parser.parse_args([])
         elif entry == "defaults_only":
-            parser.default_config_files = [given]
+            parser.default_config_files = givens
             cfg = parser.get_defaults()
         elif entry == "argmid":
             cfg = parser.parse_args(["--mid", given])
@@ -160,6 +179,7 @@ def run_case(case, base):
         for key, p in walk(cfg, ""):
             if key.split(".")[0].split("[")[0] in ("cfg",):
                 continue
+            key = re.sub(r"(^|\.)dct\.k(\d+)$", r"\1dct[\2]", key)   # the entries of the Dict[str, path] value by position
             items[key] = [canon(p.relative), canon(p.cwd), canon(p.absolute)]
         obs = {"ok": items}
     except ArgumentError as e:
